@@ -25,16 +25,23 @@ type (
 )
 
 func (ds *dataStore) save(fileName string) (err error) {
-	// open output file
-	f, err := os.Create(fileName)
+	// write a temporary file and rename it over the snapshot when it is complete, so
+	// that a crash at any point leaves either the previous or the new snapshot
+	tmpName := fileName + ".tmp"
+	f, err := os.Create(tmpName)
 	if err != nil {
 		return
 	}
 
 	// close f on exit and check for its returned error
 	defer func() {
-		if err := f.Close(); err != nil {
-			panic(err)
+		if closeErr := f.Close(); closeErr != nil {
+			panic(closeErr)
+		}
+		if err == nil {
+			err = os.Rename(tmpName, fileName)
+		} else {
+			os.Remove(tmpName)
 		}
 	}()
 
